@@ -12,7 +12,7 @@ func init() {
 	register(&propDef{
 		id: "C25", title: "Message serializers round-trip and are chosen by type",
 		technique: "guarded-arithmetic abstract interpretation on go/ssa for every slice/index/wire-read of the decoders; writer/reader header layout agreement; codec-pair field coverage for the delivery and Terminated serializers; CFG rules on the dispatchers and on type-based selection (exact type before interface; nil result checked by every caller)",
-		explanation: "Decides: (1) no decoder panics or reads out of range on any input: every slice, index, big-endian read and unsafe.String view in ProtoSerializer/CBORSerializer/JSONSerializer.Deserialize, terminatedSerializer/poisonPillSerializer.Deserialize, DeliverySerializer.Deserialize, DecodeReliablePayload and frameTypeName is entailed in bounds by the dominating guards; (2) each self-describing serializer writes the header fields (widths, order) its decoder reads; (3) the composite dispatcher returns success only from a registered serializer's success edge and a non-nil error otherwise (never nil bytes with a nil error); (4) selection by type: both resolvers (client.resolveSerializer, remote.Config.Serializer) return an interface-matched entry only after every exact-type entry was ruled out, and every send-path caller checks the resolver's nil result before using it (an unsupported message yields an error); (5) the internal serializers refuse foreign messages: success is reachable only on the type-assertion / type-switch edge for their own types; (6) writer/reader field agreement for the delivery envelope (every wire field written is read, every command field is read on encode and set on decode, every oneof variant produced is handled) and for Terminated. Equality of decoded and original messages (protobuf/CBOR/JSON library behaviour, user serializers) is NOT decided.",
+		explanation: "Decides: (1) no decoder panics or reads out of range on any input: every slice, index, big-endian read and unsafe.String view in ProtoSerializer/CBORSerializer/JSONSerializer.Deserialize, terminatedSerializer/poisonPillSerializer.Deserialize, DeliverySerializer.Deserialize, DecodeReliablePayload and frameTypeName is entailed in bounds by the dominating guards; (2) each self-describing serializer writes the header fields (widths, order) its decoder reads; (3) the composite dispatcher returns success only from a registered serializer's success edge and a non-nil error otherwise (never nil bytes with a nil error); (4) selection by type: both resolvers (client.resolveSerializer, remote.Config.Serializer) return an interface-matched entry only after every exact-type entry was ruled out, and every send-path caller checks the resolver's nil result before using it (an unsupported message yields an error); (5) the internal serializers refuse foreign messages: success is reachable only on the type-assertion / type-switch edge for their own types; (6) writer/reader field agreement for the delivery envelope (every wire field written is read, every command field is read on encode and set on decode, every oneof variant produced is handled) and for Terminated. Equality of decoded and original messages (protobuf/CBOR/JSON library behaviour, user serializers) is NOT decided. Added after seed C25a and F22: codec configurations of the built-in serializers enable no value-substituting option; a frame's payload size is computed afresh (never through MarshalOptions with UseCachedSize).",
 		assumptions: []string{"int is 64 bits", "protobuf / CBOR / JSON library round trips and message equality", "user-registered serializers honour the Serializer contract"},
 		minObl:     133,
 		run:        runC25,
@@ -104,6 +104,64 @@ func runC25(c *Ctx) {
 		}
 		// the JSON API object is a library preset or one of the literals checked above
 		c.Ok("scanned", "codec configuration literals in package remote: "+itoa(n), "-")
+	})
+
+	c.Rule("fresh-size", func() {
+		// protobuf caches the encoded size on the message object. A frame length must be computed afresh (proto.Size);
+		// asking a MarshalOptions value that has UseCachedSize set returns the size of an EARLIER marshal of the same
+		// object, stale once the message was modified (F22: the receiver cannot parse the frame)
+		n := 0
+		for _, pk := range c.P.Pkgs {
+			for _, file := range pk.Syntax {
+				for _, decl := range file.Decls {
+					fd, ok := decl.(*ast.FuncDecl)
+					if !ok || fd.Body == nil {
+						continue
+					}
+					info := pk.TypesInfo
+					ast.Inspect(fd.Body, func(nd ast.Node) bool {
+						call, ok := nd.(*ast.CallExpr)
+						if !ok {
+							return true
+						}
+						cal := callee(info, call)
+						if cal == nil || cal.Name() != "Size" || cal.Pkg() == nil || cal.Pkg().Path() != "google.golang.org/protobuf/proto" {
+							return true
+						}
+						recv := recvExpr(call)
+						if recv == nil {
+							return true // package-level proto.Size: always fresh
+						}
+						if named := namedOf(info.TypeOf(recv)); named == nil || named.Obj().Name() != "MarshalOptions" {
+							return true
+						}
+						n++
+						lit, _ := ast.Unparen(recv).(*ast.CompositeLit)
+						if id, ok := ast.Unparen(recv).(*ast.Ident); ok {
+							if def := singleLocalDef(info, fd, info.ObjectOf(id)); def != nil {
+								lit, _ = ast.Unparen(def).(*ast.CompositeLit)
+							}
+						}
+						cached := lit == nil // unknown options value: cannot rule the flag out
+						if lit != nil {
+							for _, el := range lit.Elts {
+								if kv, ok := el.(*ast.KeyValueExpr); ok {
+									if id, ok := kv.Key.(*ast.Ident); ok && id.Name == "UseCachedSize" {
+										if tv := info.Types[kv.Value]; tv.Value == nil || tv.Value.ExactString() != "false" {
+											cached = true
+										}
+									}
+								}
+							}
+						}
+						obj, _ := info.Defs[fd.Name].(*types.Func)
+						c.Check(!cached, "fresh-size@"+funcName(obj), "a frame's payload size is computed afresh, never through MarshalOptions with UseCachedSize", c.P.Pos(call.Pos()), "Size is asked of a MarshalOptions value with UseCachedSize: it returns the size cached by a previous marshal of the same message object")
+						return true
+					})
+				}
+			}
+		}
+		c.Ok("scanned", "MarshalOptions.Size call sites in the module: "+itoa(n), "-")
 	})
 
 	c.Rule("dispatch", func() {
